@@ -14,6 +14,7 @@ Decided statically on path_planning/pathplanner.py (for all seeds / obstruction 
   R16.6 path extraction walks getParent() from the node nearest the goal, prepending, then appends
         the goal; node accessors return the fields setParent/constructor wrote.
   R16.7 the progress display never divides by zero for any budget >= 1.
+  R16.8 the choose-parent scan visits every neighbour the query returned (no break / return, full range).
 Not decided: distances themselves; exactness of the R-tree's nearest-neighbour query (library).
 """
 import ast
@@ -134,10 +135,53 @@ class GrowthDomain(FactDomain):
                 self._rec(('R16.2', 'cost expression ' + src(stmt)[:90]), X is not None, stmt.lineno,
                           'stored cost is not dist(new, X) + X.getCost() for a single node X')
                 cost_of = X or '?'
+                if first and value is not None:
+                    self._improvement(stmt, value, facts)
         if isinstance(target, ast.Attribute) and target.attr == 'parent':
             self._rec(('R16.5', 'direct parent store ' + src(stmt)[:70]), False, stmt.lineno,
                       'parent link written directly, bypassing setParent and the cost/collision discipline')
         return (places, cost_of, parent, stale, first)
+
+    def _canon(self, e):
+        if isinstance(e, ast.Name) and len(self.g.assigns.get(e.id, ())) == 1:
+            e = self.g.assigns[e.id][0]
+        return src(e).replace(' ', '').replace('(', '').replace(')', '')
+
+    def _improvement(self, stmt, value, facts):
+        """A re-parenting cost store `new.cost = V` needs a live fact V < new.cost (strict) about the same V."""
+        g = self.g
+        NEG = {ast.Lt: ast.GtE, ast.LtE: ast.Gt, ast.Gt: ast.LtE, ast.GtE: ast.Lt}
+        FLIP = {ast.Lt: ast.Gt, ast.LtE: ast.GtE, ast.Gt: ast.Lt, ast.GtE: ast.LtE}
+        cur = g.new + '.cost'
+        v = self._canon(value)
+        found = None
+        for fct in facts:
+            try:
+                t = ast.parse(fct[1], mode='eval').body
+            except SyntaxError:
+                continue
+            if not (isinstance(t, ast.Compare) and len(t.ops) == 1 and type(t.ops[0]) in NEG):
+                continue
+            l, r, op = t.left, t.comparators[0], type(t.ops[0])
+            if src(l) == cur:
+                l, r, op = r, l, FLIP[op]
+            if src(r) != cur:
+                continue
+            if not fct[0]:
+                op = NEG[op]
+            if self._canon(l) == v:
+                if found is None or op is ast.Lt:
+                    found = (op, fct[1])
+            elif found is None:
+                found = ('other', fct[1])
+        key = ('R16.5', 'strict improvement for ' + src(stmt)[:80])
+        if found is None:
+            self._rec(key, False, stmt.lineno, 'candidate accepted without comparing its cost with the current cost of the new node')
+        elif found[0] == 'other':
+            self._rec(key, False, stmt.lineno, 'the cost that was compared (`%s`) is not the cost that is stored (%s)' % (found[1][:70], src(value)[:50]))
+        else:
+            self._rec(key, found[0] is ast.Lt, stmt.lineno,
+                      'candidate accepted without a strict cost improvement (`%s` lets ties or worse re-parent the node)' % found[1][:70])
 
     def user_call(self, call, facts, user):
         g = self.g
@@ -256,32 +300,33 @@ class Checker:
                 n_sp += 1
             rep.ob(rule, fi, construct, ok, msg if not ok else 'ok', line=line)
         rep.floor('R16.3', 'setParent sites', n_sp, 2)
-        # R16.5 strict improvement
-        n_cp = 0
-        for n in ast.walk(g.loop):
-            if isinstance(n, ast.If):
-                sp = [c for s in n.body for c in ast.walk(s) if isinstance(c, ast.Call) and isinstance(c.func, ast.Attribute) and c.func.attr == 'setParent']
-                if not sp:
-                    continue
-                n_cp += 1
-                cmpn = None
-                for t in ast.walk(n.test):
-                    if isinstance(t, ast.Compare) and len(t.ops) == 1 and (g.new + '.cost') in (src(t.left), src(t.comparators[0])):
-                        cmpn = t
-                if cmpn is None:
-                    rep.ob('R16.5', fi, 'choose-parent test ' + src(n.test)[:80], False,
-                           'candidate accepted without comparing its cost with the current cost of the new node', line=n.lineno)
-                    continue
-                if src(cmpn.comparators[0]) == g.new + '.cost':
-                    cand, strict = cmpn.left, isinstance(cmpn.ops[0], ast.Lt)
-                else:
-                    cand, strict = cmpn.comparators[0], isinstance(cmpn.ops[0], ast.Gt)
-                rep.ob('R16.5', fi, 'strict improvement: ' + src(cmpn)[:90], strict,
-                       'candidate accepted without a strict cost improvement (ties or worse re-parent the node)', line=n.lineno)
-                stores = [s for s in n.body if isinstance(s, ast.Assign) and src(s.targets[0]) == g.new + '.cost']
-                same = bool(stores) and all(src(s.value) == src(cand) for s in stores)
-                rep.ob('R16.5', fi, 'stored cost is the compared expression', same,
-                       'the cost that was compared (%s) is not the cost that is stored' % src(cand)[:60], line=n.lineno)
+        # R16.5 strict improvement (recorded by the domain at every re-parenting cost store)
+        n_cp = len([k for k in sink if k[0] == 'R16.5' and k[1].startswith('strict improvement')])
+        # R16.8 the scan examines every neighbour it was given
+        rep.rule('R16.8', 'the choose-parent scan visits every neighbour returned by the query (no break / return out of the scan)')
+        n_scan = 0
+        for lp in [n for n in ast.walk(g.loop) if isinstance(n, (ast.For, ast.While)) and n is not g.loop]:
+            if not any(isinstance(c, ast.Call) and isinstance(c.func, ast.Attribute) and c.func.attr == 'setParent' for c in ast.walk(lp)):
+                continue
+            n_scan += 1
+
+            def own(node):
+                for ch in ast.iter_child_nodes(node):
+                    if isinstance(ch, (ast.For, ast.While, ast.FunctionDef, ast.Lambda)):
+                        continue
+                    yield ch
+                    yield from own(ch)
+            early = [x for x in own(lp) if isinstance(x, (ast.Break, ast.Return))]
+            rep.ob('R16.8', fi, 'scan `%s` runs to completion' % src(lp).split('\n')[0][:70], not early,
+                   ('line %d leaves the scan early: neighbours after that point are never considered, so the node can stay on a more '
+                    'expensive parent although a cheaper collision-free candidate was returned by the query' % early[0].lineno) if early else 'ok',
+                   line=early[0].lineno if early else lp.lineno)
+            if isinstance(lp, ast.For) and isinstance(lp.iter, ast.Call) and src(lp.iter.func) == 'range':
+                a_ = lp.iter.args
+                hi = a_[0] if len(a_) == 1 else a_[1]
+                full = isinstance(hi, ast.Call) and src(hi.func) == 'len' and (len(a_) < 3)
+                rep.ob('R16.8', fi, 'scan range %s' % src(lp.iter), full, 'the scan stops before the last neighbour (%s)' % src(lp.iter), line=lp.lineno)
+        rep.floor('R16.8', 'choose-parent scans', n_scan, 1)
         rep.floor('R16.5', 'choose-parent sites', n_cp, 1)
 
     def bookkeeping(self):
